@@ -35,7 +35,7 @@ func baseChain(v ssa.Value, depth int) (kind string, path string) {
 	case *ssa.Parameter:
 		return "param:" + x.Name() + ":" + typeStr(x.Type()), ""
 	case *ssa.FreeVar:
-		return "freevar:" + x.Name(), ""
+		return "freevar:" + x.Name() + ":" + typeStr(x.Type()), ""
 	case *ssa.Global:
 		return "global:" + x.Name(), ""
 	case *ssa.UnOp:
